@@ -898,25 +898,28 @@ impl Family for WriteFailsForOneTarget {
         "write-fails-for-one-file/a healthy reply of three files whose middle target cannot be written (a link to /dev/full: created, then no space; an existing directory; a link to a missing directory; an existing named pipe that nobody reads) x with / without -O x alone / before / after a second healthy generator: the failure is reported with the path, the exit status is non-zero, every other file is written".into()
     }
     fn len(&self) -> u64 {
-        4 * 2 * 3
+        4 * 2 * 3 * 2
     }
     fn hang_secs(&self) -> f64 {
         60.0
     }
     fn describe(&self, idx: u64) -> Value {
         let obstacle = ["link to /dev/full", "existing directory", "link into a missing directory", "existing named pipe"][(idx % 4) as usize];
-        let neighbour = ["none", "before", "after"][(idx / 8) as usize];
-        json!({"obstacle": obstacle, "dash_O": (idx / 4) % 2 == 1, "neighbour": neighbour})
+        let neighbour = ["none", "before", "after"][((idx % 24) / 8) as usize];
+        json!({"obstacle": obstacle, "dash_O": (idx / 4) % 2 == 1, "neighbour": neighbour, "the_file_that_cannot_be_written_is_empty": idx >= 24})
     }
     fn run(&self, idx: u64) -> CaseOut {
+        // (second half of the family: the file that cannot be written is EMPTY - nothing to compare, nothing to write)
+        let empty = idx >= 24;
+        let idx = idx % 24;
         let obstacle = idx % 4;
         let dash_o = (idx / 4) % 2 == 1;
         let neighbour = idx / 8;
-        let mut out = CaseOut::new(hash_str(&format!("wf{idx}")));
+        let mut out = CaseOut::new(hash_str(&format!("wf{idx}{empty}")));
         out.validated = 1;
         out.nontrivial = true;
         let dir = if dash_o { "out/" } else { "" };
-        let files = vec![proc::rfile("first.txt", "first\n"), proc::rfile("blocked.txt", "cannot be written\n"), proc::rfile("last.txt", "last\n")];
+        let files = vec![proc::rfile("first.txt", "first\n"), proc::rfile("blocked.txt", if empty { "" } else { "cannot be written\n" }), proc::rfile("last.txt", "last\n")];
         let other = proc::rfile("other.txt", "from the other generator\n");
         let mut sc = Scenario::default();
         sc.tree.push(("a.slice".into(), Node::File(SMALL_INPUT.as_bytes().to_vec())));
